@@ -3,7 +3,7 @@
    generated tables; md5, the per-row hash of hash_pandas_object, str(int) and json.dumps are oracles (Section variables).
    PARTIAL: "equal identifier <=> equal prehash" is the collision-freeness of those oracles, which is not proved. *)
 From Coq Require Import QArith ZArith String List Bool Permutation.
-From PG Require Import Lib.Num Lib.Py Codec.PyVal Gen.TablesGen Codec.JsonDoc Codec.JsonRoundtrip Ident.Prehash.
+From PG Require Import Lib.Num Lib.Py Codec.PyVal Gen.TablesGen Codec.JsonDoc Codec.JsonRoundtrip Ident.Prehash Codec.Census.
 Import ListNotations.
 Open Scope string_scope.
 
@@ -59,6 +59,29 @@ Print Assumptions id_row_labels_refuted.
 Theorem id_branch_column_dtype_refuted : ~ Permutation (tokens rt_a w_pt) (tokens rt_obj w_pt).
 Proof. exact route_branch_dtype. Qed.
 Print Assumptions id_branch_column_dtype_refuted.
+
+(* the to_dict of the model (on which all theorems above are stated) is the interpretation of BaseIsotherm.to_dict as translated
+   statement by statement from the current source (Gen/TablesGen.v to_dict_program): vars(self), the three pops (the adsorbate as
+   text, the material as text or dictionary, the temperature AS STORED, i.e. in the isotherm's own temperature unit), reserved
+   names removed, metadata merged last. A statement reading anything else (a property, another attribute) breaks this proof. *)
+Theorem to_dict_model_is_source_program :
+  forall i, length (i_units i) = length unit_params -> td_run i ([], []) to_dict_program = Some (to_dict i).
+Proof. exact to_dict_is_source_program. Qed.
+Print Assumptions to_dict_model_is_source_program.
+
+(* reading never changes the identifier, part 2: every read-only query of the three classes (any method or property that is not a
+   constructor, a property setter or a convert_* method; table generated from the source) binds only names that to_dict discards,
+   and to_dict does not depend on the values stored under discarded names *)
+Theorem queries_bind_only_discarded_names :
+  forall c m k l a, In (c, m, k, l) method_assigns -> is_query m k = true -> In a l ->
+  In a (class_reserved_of c) /\ ~ In a popped_sources /\ a <> "properties[]".
+Proof. exact queries_bind_only_discarded. Qed.
+Print Assumptions queries_bind_only_discarded_names.
+Theorem to_dict_ignores_discarded_names :
+  forall i env env', (forall a, mem a (discarded (class_reserved (i_body i))) = false -> env a = env' a) ->
+  to_dict_env i env = to_dict_env i env'.
+Proof. exact to_dict_ignores_discarded. Qed.
+Print Assumptions to_dict_ignores_discarded_names.
 
 (* the hypotheses of the sensitivity theorem are satisfiable *)
 Example wf_satisfiable : wf (fun s => s) (fun _ => true) w_iso.
